@@ -42,3 +42,18 @@ Fixpoint vectors (m bound:nat) : list (list nat) :=
 Definition search_counter (bound:nat) (q:cond) : option (list nat) :=
   find (fun eta => crep_b eta && negb (qacc_b eta q)) (vectors (length D) bound).
 End C.
+
+(* ---------- C17: Pareto-minimality of an impact vector, decided over the finite box below it ---------- *)
+Section P.
+Variable n : nat.
+Variable D : list cond.
+Fixpoint vectors_below (eta:list nat) : list (list nat) :=
+  match eta with [] => [[]] | e::r => flat_map (fun x => map (cons x) (vectors_below r)) (seq 0 (S e)) end.
+Fixpoint eq_nats (a b:list nat) : bool := match a, b with [], [] => true | x::a', y::b' => (x =? y) && eq_nats a' b' | _, _ => false end.
+Definition pareto_check (eta:list nat) : bool :=
+  (length eta =? length D) && crep_b n D eta && forallb (fun e' => eq_nats e' eta || negb (crep_b n D e')) (vectors_below eta).
+(* bounded completeness of a reported front: Pareto-minimal vectors inside the box [0..bound]^|D| that are not reported *)
+Definition front_missing (bound:nat) (front:list (list nat)) : list (list nat) :=
+  filter (fun e => pareto_check e && negb (existsb (eq_nats e) front)) (vectors (length D) bound).
+Definition ranks_of (eta:list nat) : list nat := map (ckappa D eta) (worlds n).
+End P.
